@@ -12,6 +12,12 @@ import (
 	"github.com/grindlemire/go-lucene/verif/report"
 )
 
+// fuzzMaxLen bounds the inputs of the native fuzz targets: JSON encoding is quadratic in
+// the nesting depth (a 4000-term chain takes seconds), and the engine kills a worker that
+// spends too long on one input and reports that as a failing input. Large inputs are the
+// business of the big-shape streams of C01.
+const fuzzMaxLen = 1500
+
 // seedInputs are the starting corpus of the string-level fuzz targets: the
 // repository's own test inputs, the hostile pool and all short token sequences.
 func seedInputs() []string {
@@ -39,6 +45,9 @@ func FuzzC01(f *testing.F) {
 		f.Add(s, "dflt")
 	}
 	f.Fuzz(func(t *testing.T, s, df string) {
+		if len(s)+len(df) > fuzzMaxLen {
+			return
+		}
 		st := report.FuzzStats("C01")
 		st.Eval()
 		c := mkIn(s, df, 0)
@@ -58,6 +67,9 @@ func FuzzC10(f *testing.F) {
 		f.Add(s, "dflt")
 	}
 	f.Fuzz(func(t *testing.T, s, df string) {
+		if len(s)+len(df) > fuzzMaxLen {
+			return
+		}
 		st := report.FuzzStats("C10")
 		st.Eval()
 		c := mkIn(s, df, 0)
@@ -77,6 +89,9 @@ func FuzzC16(f *testing.F) {
 		f.Add([]byte(s))
 	}
 	f.Fuzz(func(t *testing.T, b []byte) {
+		if len(b) > fuzzMaxLen {
+			return
+		}
 		st := report.FuzzStats("C16")
 		st.Eval()
 		c := C16Case{Input: b, Quoted: fmt.Sprintf("%q", b)}
@@ -93,6 +108,9 @@ func FuzzC12(f *testing.F) {
 		f.Add(s, "")
 	}
 	f.Fuzz(func(t *testing.T, s, df string) {
+		if len(s)+len(df) > fuzzMaxLen {
+			return
+		}
 		if !utf8.ValidString(s) || !utf8.ValidString(df) {
 			return
 		}
@@ -130,6 +148,9 @@ func FuzzC13(f *testing.F) {
 		}
 	}
 	f.Fuzz(func(t *testing.T, b []byte) {
+		if len(b) > fuzzMaxLen {
+			return
+		}
 		st := report.FuzzStats("C13")
 		st.Eval()
 		c := mkDoc(b)
@@ -179,6 +200,9 @@ func FuzzC06(f *testing.F) {
 		f.Add(s, "dflt")
 	}
 	f.Fuzz(func(t *testing.T, s, df string) {
+		if len(s)+len(df) > fuzzMaxLen {
+			return
+		}
 		toks, ok := lexToks(s)
 		if !ok || len(toks) == 0 {
 			return
@@ -202,6 +226,9 @@ func FuzzC11(f *testing.F) {
 		f.Add(s)
 	}
 	f.Fuzz(func(t *testing.T, s string) {
+		if len(s) > fuzzMaxLen {
+			return
+		}
 		toks, ok := lexToks(s)
 		if !ok || len(toks) == 0 || strings.Contains(s, "zzdflt") {
 			return
